@@ -29,7 +29,7 @@ var e1Rules = map[string][3]string{
 	"C07": {"one bidirectional stream (recorded from a live handshake or synthetic) replayed under one enumerated dimension; an evaluation = one fresh Conn over the stream; distinct = per cut: (kind, record index, record type, rewritten or not, position class within the record)",
 		"transport cut (EOF / error, on its own Read or with the last bytes) at every byte offset of the client stream; write error at every offset and every single split point of the backend stream (stride 7/11 for streams with > 16 KB records); 10 chunkings x 7 read-buffer sizes, incl. two interleaved connections", "cut_in_first_record,cut_mid_stream,two_connections_interleaved,hrr_stream"},
 	"C08": {"stall plans: every offset of one first record; hostile plans: one mutated first record plus hostile record streams on both sides; non-trivial = all monitors evaluated; distinct = per stall offset (region, window, lateness) resp. (mutation kinds, item kinds, outcome)",
-		"stall after every byte offset of the first record, for each stall plan", "hostile_past_newconn"},
+		"stall after every byte offset of the first record, for each stall plan", "hostile_past_newconn,both_directions_at_once"},
 	"C09": {"one authentic flight replayed against every ordered list of 1..4 keys from {target} + <= 3 others; an evaluation = one list; distinct = per plan (pool size, collisions, retry, layout classes)",
 		"all ordered key lists of length 1..4 over the plan's key pool", "config_id_collision,retry_replayed,earlier_connection_other_key,context_ends_with_last_octet"},
 	"C10": {"one cell of the action grid (where the context ends relative to the hello and to NewConn's return, how the transport and the context react) x GOMAXPROCS, repeated 24-48 times; distinct = the grid cell",
